@@ -3,7 +3,10 @@ count matches (one custom node with too many children, a later one with too few)
 function returns 2-tuples / 3-tuples, whose metadata does or does not fix the length.  Clause: "a rest that does not have
 t's structure as a prefix raises ValueError before f is called at all"; and the in-place variants make the same calls
 as the plain ones and return the original tree even when the tree contains nodes whose reconstruction validates its
-children.  Exhaustive over the listed grid."""
+children.  (c) wide nodes (300 / 1200 children: indices beyond the small-integer cache) of every positional kind and of custom
+nodes with and without entries, each in a child interpreter: every map variant calls f exactly once per leaf in order, the
+with_path / with_accessor variants with the i-th path / accessor first, and the identity map rebuilds an equal tree.
+Exhaustive over the listed grid."""
 from ocv.bounded._extra import run_core
 
 CORE = r'''
@@ -40,7 +43,57 @@ def shapes(B):
     yield ({'a': B([1]), 'b': B([2, 3])}, {'a': B([1, 1]), 'b': B([2])}, False)
     yield ((B([1]), B([2])), (B([(10, 11)]), B([[20]])), True)            # rest deeper below the leaves: fine
 
+WIDE_SRC = """
+import sys, collections, optree
+kind, n = sys.argv[1], int(sys.argv[2])
+NS = 'c05wide'
+class Seq:
+    def __init__(self, xs): self.xs = list(xs)
+    def __eq__(self, o): return type(o) is type(self) and o.xs == self.xs
+class SeqE(Seq): pass
+optree.register_pytree_node(Seq, lambda s: (tuple(s.xs), None), lambda m, c: Seq(c), namespace=NS)
+optree.register_pytree_node(SeqE, lambda s: (tuple(s.xs), None, tuple(f'e{i}' for i in range(len(s.xs)))), lambda m, c: SeqE(c), namespace=NS)
+xs = [float(i) for i in range(n)]
+tree = {'list': lambda: list(xs), 'tuple': lambda: tuple(xs), 'deque': lambda: collections.deque(xs), 'custom': lambda: Seq(xs),
+        'custom_entries': lambda: SeqE(xs), 'nested_custom': lambda: [Seq(xs), {'k': Seq(xs)}]}[kind]()
+kw = dict(namespace=NS)
+bad = []
+leaves = optree.tree_leaves(tree, **kw)
+paths = optree.tree_paths(tree, **kw)
+accs = optree.tree_accessors(tree, **kw)
+if len(leaves) != len(paths) or len(leaves) != len(accs): bad.append('lengths differ')
+def entry_ok(p):
+    return all(isinstance(e, (int, str)) for e in p)
+if not all(entry_ok(p) for p in paths): bad.append('a path holds an entry that is neither an index nor a key')
+for variant in ('tree_map', 'tree_map_with_path', 'tree_map_with_accessor', 'tree_map_', 'tree_map_with_path_', 'tree_map_with_accessor_'):
+    calls = []
+    if 'path' in variant: f = lambda p, x: (calls.append((p, x)), x)[1]
+    elif 'accessor' in variant: f = lambda a, x: (calls.append((a.path, x)), x)[1]
+    else: f = lambda x: (calls.append((None, x)), x)[1]
+    out = getattr(optree, variant)(f, tree, **kw)
+    if [c[1] for c in calls] != leaves: bad.append(f'{variant}: f not called once per leaf in order')
+    if variant != 'tree_map' and 'tree_map_' != variant[:9] or 'with' in variant:
+        if 'with' in variant and [tuple(c[0]) for c in calls] != [tuple(p) for p in paths]:
+            k = next(i for i, (c, p) in enumerate(zip(calls, paths)) if tuple(c[0]) != tuple(p))
+            bad.append(f'{variant}: call {k} received path {calls[k][0]!r}, the {k}-th path is {paths[k]!r}')
+    if not variant.endswith('_') and out != tree: bad.append(f'{variant}: identity map does not rebuild an equal tree')
+    if len(bad) > 3: break
+print('; '.join(str(b) for b in bad)); sys.exit(1 if bad else 0)
+"""
+
+def wide(kind, n):
+    import subprocess, sys, os
+    r = subprocess.run([sys.executable, '-c', WIDE_SRC, kind, str(n)], capture_output=True, text=True,
+                       env=dict(os.environ, PYTHONPATH=os.pathsep.join(sys.path)), cwd='/', timeout=600)
+    if r.returncode == 0:
+        return []
+    what = r.stdout.strip()[:400] if r.returncode == 1 else f'child interpreter died with status {r.returncode}: {r.stderr.strip()[-200:]}'
+    return [('C05.map_variants_on_wide_nodes', f'{kind} with {n} children: {what}')]
+
 def cases(tier):
+    for kind in ('list', 'tuple', 'deque', 'custom', 'custom_entries', 'nested_custom'):
+        for n in (300, 1200):
+            yield ('wide', kind, n)
     for fam in FAMILY:
         for bname in ('Bag', 'Bag3'):
             for k in range(8):
@@ -49,6 +102,8 @@ def cases(tier):
 
 def check(spec):
     bad = []
+    if spec[0] == 'wide':
+        return wide(spec[1], spec[2])
     if spec[0] == 'misaligned':
         _, fam, bname, k = spec
         B = {'Bag': Bag, 'Bag3': Bag3}[bname]
